@@ -27,7 +27,7 @@ PATHS = ("cwrite", "block_to_file", "to_tim", "to_dat", "to_spec", "to_fft")
 
 
 def REQUIRED(tier):
-    return ["prep_outfile:no_arguments", "path:cwrite", "path:block_to_file", "path:to_tim", "path:to_dat", "path:to_spec", "path:to_fft",
+    return ["readback_blocks_held", "readback_overlapping_plan", "prep_outfile:no_arguments", "path:cwrite", "path:block_to_file", "path:to_tim", "path:to_dat", "path:to_spec", "path:to_fft",
             "readback_compared", "declared_width_checked", "spy:cwrite_calls", "dtype_mismatch_cases", "multi_call_writes", "path:reuse_name", "reuse_name:equal_length_products", "dotted_basename_pairs"]
 
 
@@ -201,6 +201,25 @@ def _run_cwrite(case, ctx):
         got = np.concatenate([np.array(b[2], dtype=np.float64) for b in fil.read_plan(gulp=7, quiet=True, description="v")]).reshape(-1, nch)
         if not np.array_equal(got, X.astype(np.float64)):
             ctx.violation(f"readback-values-plan:{label}", "read_plan values differ from the array written", case)
+        # the product read back the way consumers do: equal-sized blocks that are all kept, and an overlapping plan
+        q = max(1, ns // 4)
+        kept = [(i, fil.read_block(i, min(q, ns - i))) for i in range(0, ns, q)]
+        ctx.count("readback_blocks_held")
+        for i, b in kept:
+            if not np.array_equal(b.data.T.astype(np.float64), X[i : i + q].astype(np.float64)):
+                ctx.violation(f"readback-values-blocks-held:{label}", f"block read at sample {i} no longer holds the samples written once later blocks of the same size had been read", case)
+                break
+        if ns >= 6:
+            sb, g = 2, 5
+            pieces, k = [], 0
+            for nr, ii, dat in fil.read_plan(gulp=g, skipback=sb, quiet=True, description="v"):
+                arr = np.array(dat, dtype=np.float64).reshape(-1, nch)
+                pieces.append(arr if k == 0 else arr[sb:])
+                k += 1
+            gotp = np.concatenate(pieces)
+            ctx.count("readback_overlapping_plan")
+            if gotp.shape != X.shape or not np.array_equal(gotp, X.astype(np.float64)):
+                ctx.violation(f"readback-values-plan-overlap:{label}", f"read_plan(gulp={g}, skipback={sb}) does not deliver the samples written ({gotp.shape[0]} of {ns} samples, first mismatch counted from the second block)", case)
     _timing_ok(ctx, case, hdr, fil.header, label)
     if len(np.unique(vals)) >= 2:
         ctx.nontrivial_case(case)
